@@ -14,7 +14,7 @@ RULE = (
     "with positional/keyword inputs, per_obs True/False; scalar/vector/matrix values with sample and batch shapes; "
     "skip sets by variable, distribution-node and proxy-node name; both auto_update settings; repeated "
     "simulation. A child must sit at f(NEW parent draw): a stale evaluation is off by O(parent scale). "
-    "Also: integer placeholders (draws independent of the placeholder dtype); hyper-parameters re-assigned right before simulate() with auto-update off; a leaf placeholder of another shape between two simulations. non-trivial = program with a cached intermediate between a drawn parent and a drawn child, simulated "
+    "Also: integer placeholders (draws independent of the placeholder dtype); hyper-parameters re-assigned right before simulate() with auto-update off; a leaf placeholder of another shape between two simulations. Round 5: a third round after restoring an earlier state with the roots skipped. non-trivial = program with a cached intermediate between a drawn parent and a drawn child, simulated "
     "with auto-update off; distinct by (program, skip set, setting) hash"
 )
 REQUIRED = ["independent_noise", "child_at_f_of_new_parent", "root_draw_standardised", "shape_preserved", "skipped_untouched",
